@@ -41,7 +41,7 @@ class Driver:
         from harness.matsimu import MatSimu
 
         self.dofn = dofn
-        self.cur = dict(order=None, pat=None, v=0, cx=False)
+        self.cur = dict(order=None, pat=None, v=0, cx="real")
         self.meshname = meshname
         self.simu = MatSimu(build_mesh(meshname), dof_n=dofn, local_fn=self.local, groups_fn=self.groups)
 
@@ -66,7 +66,8 @@ class Driver:
                 continue
             ncol = n if slot < 4 else 1
             a = np.array([[[val(slot, gi, e + 1, i + 1, j + 1, self.cur["v"], 0) for j in range(ncol)] for i in range(n)] for e in range(g.Ne)], dtype=float)
-            if slot == 1 and self.cur["cx"]:
+            cx = self.cur["cx"]
+            if slot == 1 and (cx == "all" or (cx == "tail" and pos != min(self.cur["pat"]["K"]))):  # "tail": the first group fed stays real (mixed dtypes)
                 b = np.array([[[val(slot, gi, e + 1, i + 1, j + 1, self.cur["v"], 1) for j in range(ncol)] for i in range(n)] for e in range(g.Ne)], dtype=float)
                 a = a + 1j * b
             out.append(a)
@@ -126,7 +127,7 @@ def replay(beh):
                 viol.append((f"assemble-raises/{st['mesh']}", f"Assembly() raises {type(ex).__name__}: {ex} after {' -> '.join(trail)} (order {last['order']}, pattern {last['pat']})", case))
                 break
             exp = [np.array(last[k], dtype=float) for k in "KCMF"]
-            if last["cx"]:
+            if last["cx"] != "real":
                 exp[0] = exp[0] + 1j * np.array(last["Ki"], dtype=float)
             for nm, g, e in zip("KCMF", got, exp):
                 if g.shape != e.shape or not np.array_equal(g, e):
